@@ -6,26 +6,393 @@ open WD.Deb
 def handedVals (h : List Obs) : List Nat := h.filterMap (fun o => match o with | .handed _ v _ => some v | _ => none)
 def batchVals (h : List Obs) : List Nat := h.flatMap (fun o => match o with | .batch vs _ => vs | _ => [])
 
+/-! ### history-only facts -/
+
+/-- nothing is delivered after a `stopped` -/
+def NAS (h : List Obs) : Prop :=
+  ∀ p q tid t, h = p ++ Obs.stopped tid t :: q → ∀ vs t', Obs.batch vs t' ∉ q
+
+/-- every delivery comes at least `I` after everything handed in before it -/
+def SIL (I : Nat) (h : List Obs) : Prop :=
+  ∀ p q vs t, h = p ++ Obs.batch vs t :: q → ∀ tid v t0, Obs.handed tid v t0 ∈ p → t0 + I ≤ t
+
+theorem snoc_split {α : Type} {h p q : List α} {o x : α} (e : h ++ [o] = p ++ x :: q) :
+    (q = [] ∧ h = p ∧ o = x) ∨ ∃ q', q = q' ++ [o] ∧ h = p ++ x :: q' := by
+  rcases List.eq_nil_or_concat q with rfl | ⟨q', o', rfl⟩
+  · left
+    have := List.append_inj' e (by simp)
+    simp_all
+  · right
+    rw [List.concat_eq_append] at e ⊢
+    have e' : h ++ [o] = (p ++ x :: q') ++ [o'] := by simpa using e
+    have := List.append_inj' e' (by simp)
+    refine ⟨q', ?_, this.1⟩
+    simp_all
+
+theorem handedVals_snoc (h : List Obs) (o : Obs) :
+    handedVals (h ++ [o]) = handedVals h ++ (match o with | .handed _ v _ => [v] | _ => []) := by
+  cases o <;> simp [handedVals, List.filterMap_append]
+
+theorem batchVals_snoc (h : List Obs) (o : Obs) :
+    batchVals (h ++ [o]) = batchVals h ++ (match o with | .batch vs _ => vs | _ => []) := by
+  cases o <;> simp [batchVals, List.flatMap_append]
+
+theorem NAS_nil : NAS [] := by
+  intro p q tid t e; simp at e
+
+theorem NAS_snoc_nonbatch {h : List Obs} {o : Obs} (H : NAS h) (ho : ∀ vs t, o ≠ Obs.batch vs t) :
+    NAS (h ++ [o]) := by
+  intro p q tid t e vs t' hm
+  rcases snoc_split e with ⟨rfl, _, _⟩ | ⟨q', rfl, e'⟩
+  · simp at hm
+  · rcases List.mem_append.1 hm with hm | hm
+    · exact H p q' tid t e' vs t' hm
+    · simp at hm; exact ho vs t' hm.symm
+
+theorem NAS_snoc_nostop {h : List Obs} {o : Obs} (H : ∀ tid t, Obs.stopped tid t ∉ h) :
+    NAS (h ++ [o]) := by
+  intro p q tid t e vs t' hm
+  rcases snoc_split e with ⟨rfl, _, _⟩ | ⟨q', rfl, e'⟩
+  · simp at hm
+  · exact absurd (by rw [e']; simp) (H tid t)
+
+theorem SIL_nil (I : Nat) : SIL I [] := by
+  intro p q vs t e; simp at e
+
+theorem SIL_snoc_nonbatch {I : Nat} {h : List Obs} {o : Obs} (H : SIL I h)
+    (ho : ∀ vs t, o ≠ Obs.batch vs t) : SIL I (h ++ [o]) := by
+  intro p q vs t e tid v t0 hm
+  rcases snoc_split e with ⟨rfl, _, e'⟩ | ⟨q', rfl, e'⟩
+  · exact absurd e' (ho vs t)
+  · exact H p q' vs t e' tid v t0 hm
+
+theorem SIL_snoc_batch {I : Nat} {h : List Obs} {ws : List Nat} {c : Nat} (H : SIL I h)
+    (hc : ∀ tid v t0, Obs.handed tid v t0 ∈ h → t0 + I ≤ c) : SIL I (h ++ [Obs.batch ws c]) := by
+  intro p q vs t e tid v t0 hm
+  rcases snoc_split e with ⟨rfl, rfl, e'⟩ | ⟨q', rfl, e'⟩
+  · cases e'; exact hc tid v t0 hm
+  · exact H p q' vs t e' tid v t0 hm
+
+/-! ### the invariant -/
+
+/-- the part of the invariant that does not mention the debouncer's pc / `notified` -/
+structure Base (I : Nat) (s : State) : Prop where
+  int : s.interval = I
+  ord : handedVals s.hist = batchVals s.hist ++ s.events
+  stopRun : ∀ tid t, Obs.stopped tid t ∈ s.hist → s.running = false
+  nas : NAS s.hist
+  clk : ∀ tid v t0, Obs.handed tid v t0 ∈ s.hist → t0 ≤ s.clock
+  sil : SIL I s.hist
+
+structure Inv (I : Nat) (s : State) : Prop where
+  base : Base I s
+  wm : ∀ dl, s.deb = .dWaitMore dl → s.notified = false →
+    ∀ tid v t0, Obs.handed tid v t0 ∈ s.hist → t0 + I ≤ dl
+  ex : s.running = false → s.deb = .done ∨ debEnabled s = true
+
+theorem Base.congr {I : Nat} {s s' : State} (B : Base I s) (h1 : s'.interval = s.interval)
+    (h2 : s'.hist = s.hist) (h3 : s'.events = s.events) (h4 : s'.running = s.running)
+    (h5 : s'.clock = s.clock) : Base I s' := by
+  constructor
+  · rw [h1]; exact B.int
+  · rw [h2, h3]; exact B.ord
+  · rw [h2, h4]; exact B.stopRun
+  · rw [h2]; exact B.nas
+  · rw [h2, h5]; exact B.clk
+  · rw [h2]; exact B.sil
+
+theorem Inv.congr {I : Nat} {s s' : State} (H : Inv I s) (h1 : s'.interval = s.interval)
+    (h2 : s'.hist = s.hist) (h3 : s'.events = s.events) (h4 : s'.running = s.running)
+    (h5 : s'.clock = s.clock) (h6 : s'.deb = s.deb) (h7 : s'.notified = s.notified) : Inv I s' := by
+  refine ⟨H.base.congr h1 h2 h3 h4 h5, ?_, ?_⟩
+  · rw [h6, h7, h2]; exact H.wm
+  · have : debEnabled s' = debEnabled s := by simp [debEnabled, h6, h7, h5]
+    rw [h4, h6, this]; exact H.ex
+
+/-! ### the debouncer's loop, closed forms -/
+
+theorem debDeliver_eq (n : Nat) (s : State) : debDeliver (n + 2) s =
+    if s.running then
+      { s with events := [], hist := s.hist ++ [Obs.batch s.events s.clock], deb := .dWaitFirst,
+               notified := false }
+    else { s with deb := .done } := by
+  cases h : s.running <;> simp [debDeliver, debLoop, State.log, h]
+
+theorem inv_deliver {I : Nat} {s : State} (n : Nat) (B : Base I s)
+    (hc : s.running = true → ∀ tid v t0, Obs.handed tid v t0 ∈ s.hist → t0 + I ≤ s.clock) :
+    Inv I (debDeliver (n + 2) s) := by
+  rw [debDeliver_eq]
+  cases hr : s.running
+  · simp only [Bool.false_eq_true, if_false]
+    refine ⟨B.congr rfl rfl rfl (by simp [hr]) rfl, ?_, ?_⟩
+    · intro dl h; simp at h
+    · intro _; left; rfl
+  · simp only [if_true]
+    refine ⟨⟨B.int, ?_, ?_, ?_, ?_, ?_⟩, ?_, ?_⟩
+    · simp [handedVals_snoc, batchVals_snoc, B.ord]
+    · intro tid t hm
+      simp at hm
+      have := B.stopRun tid t hm
+      simp [hr] at this
+    · apply NAS_snoc_nostop
+      intro tid t hm
+      have := B.stopRun tid t hm
+      simp [hr] at this
+    · intro tid v t0 hm
+      simp at hm
+      exact B.clk tid v t0 hm
+    · exact SIL_snoc_batch B.sil (hc hr)
+    · intro dl h; simp at h
+    · intro h; simp at h
+
+theorem inv_afterFirst {I : Nat} {s : State} (n : Nat) (B : Base I s) :
+    Inv I (debAfterFirst (n + 3) s) := by
+  unfold debAfterFirst
+  split
+  · rename_i h
+    simp at h
+    refine ⟨B.congr rfl rfl rfl rfl rfl, ?_, ?_⟩
+    · intro dl hd _ tid v t0 hm
+      simp at hd
+      have := B.clk tid v t0 hm
+      have := B.int
+      simp at hm
+      omega
+    · intro hr; simp [h.2] at hr
+  · rename_i h
+    apply inv_deliver n B
+    intro hr tid v t0 hm
+    simp [hr] at h
+    have := B.clk tid v t0 hm
+    have := B.int
+    omega
+
+theorem inv_loop {I : Nat} {s : State} (n : Nat) (B : Base I s) :
+    Inv I (debLoop (n + 4) s) := by
+  unfold debLoop
+  split
+  · rename_i h
+    simp at h
+    refine ⟨B.congr rfl rfl rfl rfl rfl, ?_, ?_⟩
+    · intro dl hd; simp at hd
+    · intro hr; simp [h.2] at hr
+  · exact inv_afterFirst n B
+
+theorem inv_debStep {I : Nat} {s s' : State} (H : Inv I s) (h : debStep s = some s') : Inv I s' := by
+  unfold debStep at h
+  split at h
+  · cases h
+  rename_i hen
+  simp at hen
+  split at h
+  · cases h
+    refine ⟨H.base.congr rfl rfl rfl rfl rfl, ?_, ?_⟩
+    · intro dl hd; simp at hd
+    · intro _; right; simp [debEnabled]
+  · cases h
+    exact inv_loop 4 H.base
+  · cases h
+    exact inv_afterFirst 5 (H.base.congr rfl rfl rfl rfl rfl)
+  · rename_i dl hdeb
+    split at h
+    · rename_i hn
+      dsimp only at h
+      split at h
+      · rename_i hr
+        cases h
+        refine ⟨H.base.congr rfl rfl rfl rfl rfl, ?_, ?_⟩
+        · intro dl' hd _ tid v t0 hm
+          simp at hd hm
+          have := H.base.clk tid v t0 hm
+          have := H.base.int
+          omega
+        · intro hr'; simp at hr hr'; simp [hr] at hr'
+      · rename_i hr
+        cases h
+        apply inv_deliver 6
+        · exact H.base.congr rfl rfl rfl rfl rfl
+        · intro hr'; exact absurd hr' hr
+    · rename_i hn
+      cases h
+      apply inv_deliver 6 H.base
+      intro _ tid v t0 hm
+      simp at hn
+      have := H.wm dl hdeb hn tid v t0 hm
+      simp [debEnabled, hdeb, hn] at hen
+      omega
+  · cases h
+
+/-! ### clients -/
+
+theorem inv_arrive {I : Nat} {s : State} (i : Nat) (t : Thread) (H : Inv I s) : Inv I (arrive s i t) := by
+  unfold arrive
+  split <;> exact H.congr rfl rfl rfl rfl rfl rfl rfl
+
+theorem notify_running (s : State) : s.notify.running = s.running := by
+  unfold State.notify; split <;> rfl
+
+theorem notify_clock (s : State) : s.notify.clock = s.clock := by
+  unfold State.notify; split <;> rfl
+
+theorem inv_notify {I : Nat} {s : State} (B : Base I s) : Inv I s.notify := by
+  unfold State.notify
+  split
+  · rename_i hd
+    refine ⟨B.congr rfl rfl rfl rfl rfl, ?_, ?_⟩
+    · intro dl h; simp [hd] at h
+    · intro _; right; simp [debEnabled, hd]
+  · rename_i dl hd
+    refine ⟨B.congr rfl rfl rfl rfl rfl, ?_, ?_⟩
+    · intro dl' _ h; simp at h
+    · intro _; right; simp [debEnabled, hd]
+  · rename_i h1 h2
+    refine ⟨B, ?_, ?_⟩
+    · intro dl hd; exact absurd hd (h2 dl)
+    · intro _
+      cases hd : s.deb <;> simp_all [debEnabled]
+
+theorem inv_log {I : Nat} {s : State} {o : Obs} (H : Inv I s) (h1 : ∀ vs t, o ≠ Obs.batch vs t)
+    (h2 : ∀ tid v t, o ≠ Obs.handed tid v t) (h3 : ∀ tid t, o = Obs.stopped tid t → s.running = false) :
+    Inv I (s.log o) := by
+  unfold State.log
+  refine ⟨⟨H.base.int, ?_, ?_, ?_, ?_, ?_⟩, ?_, ?_⟩
+  · cases o <;> simp_all [handedVals_snoc, batchVals_snoc, H.base.ord]
+  · intro tid t hm
+    simp at hm
+    rcases hm with hm | hm
+    · exact H.base.stopRun tid t hm
+    · exact h3 tid t hm.symm
+  · exact NAS_snoc_nonbatch H.base.nas h1
+  · intro tid v t0 hm
+    simp at hm
+    rcases hm with hm | hm
+    · exact H.base.clk tid v t0 hm
+    · exact absurd hm.symm (h2 tid v t0)
+  · exact SIL_snoc_nonbatch H.base.sil h1
+  · intro dl hd hn tid v t0 hm
+    simp at hm hd hn
+    rcases hm with hm | hm
+    · exact H.wm dl hd hn tid v t0 hm
+    · exact absurd hm.symm (h2 tid v t0)
+  · exact H.ex
+
+theorem inv_clientStep {I : Nat} {s s' : State} {i : Nat} (H : Inv I s) (h : clientStep s i = some s') :
+    Inv I s' := by
+  unfold clientStep at h
+  split at h
+  · cases h
+  split at h
+  · cases h
+  rename_i t _
+  split at h
+  · cases h; exact inv_arrive i t H
+  · rename_i v _
+    cases h
+    apply inv_arrive
+    simp only [State.log]
+    apply inv_notify
+    refine ⟨H.base.int, ?_, ?_, ?_, ?_, ?_⟩
+    · simp [handedVals_snoc, batchVals_snoc, H.base.ord]
+    · intro tid t hm
+      simp at hm
+      exact H.base.stopRun tid t hm
+    · exact NAS_snoc_nonbatch H.base.nas (by intro vs t; simp)
+    · intro tid v' t0 hm
+      simp at hm
+      rcases hm with hm | ⟨_, _, rfl⟩
+      · exact H.base.clk tid v' t0 hm
+      · exact Nat.le_refl _
+    · exact SIL_snoc_nonbatch H.base.sil (by intro vs t; simp)
+  · cases h
+    apply inv_arrive
+    apply inv_log
+    · apply inv_notify
+      refine ⟨H.base.int, H.base.ord, ?_, H.base.nas, H.base.clk, H.base.sil⟩
+      intro _ _ _; rfl
+    · intro vs t; simp
+    · intro tid v t; simp
+    · intro _ _ _; rw [notify_running]
+  · cases h
+    apply inv_arrive
+    apply inv_log H
+    · intro vs t; simp
+    · intro tid v t; simp
+    · intro tid t h; simp at h
+  · cases h; exact inv_arrive i t H
+  · cases h
+
+theorem inv_tick {I : Nat} {s : State} (d : Nat) (H : Inv I s) :
+    Inv I { s with clock := s.clock + d } := by
+  refine ⟨⟨H.base.int, H.base.ord, H.base.stopRun, H.base.nas, ?_, H.base.sil⟩, H.wm, ?_⟩
+  · intro tid v t0 hm
+    have := H.base.clk tid v t0 hm
+    simp; omega
+  · intro hr
+    rcases H.ex hr with h | h
+    · exact Or.inl h
+    · right
+      revert h
+      simp only [debEnabled]
+      split <;> simp
+      intro h; rcases h with h | h
+      · exact Or.inl h
+      · right; omega
+
+theorem inv_init (I : Nat) (scripts : List (List Op)) : Inv I (init I scripts) := by
+  refine ⟨⟨rfl, ?_, ?_, NAS_nil, ?_, SIL_nil I⟩, ?_, ?_⟩
+  · simp [init, handedVals, batchVals]
+  · intro tid t hm; simp [init] at hm
+  · intro tid v t0 hm; simp [init] at hm
+  · intro dl hd; simp [init] at hd
+  · intro hr; simp [init] at hr
+
+theorem inv_act {I : Nat} {s : State} (a : Action) (H : Inv I s) : Inv I (act s a) := by
+  cases a with
+  | tick d => exact inv_tick d H
+  | step tid =>
+    simp only [act]
+    cases tid with
+    | zero =>
+      simp only [step]
+      cases h : debStep s with
+      | none => exact H
+      | some s' => exact inv_debStep H h
+    | succ k =>
+      simp only [step]
+      cases h : clientStep s k with
+      | none => exact H
+      | some s' => exact inv_clientStep H h
+
+theorem inv_run {I : Nat} (as : List Action) : ∀ {s : State}, Inv I s → Inv I (run s as) := by
+  induction as with
+  | nil => intro s H; exact H
+  | cons a as ih => intro s H; exact ih (inv_act a H)
+
+/-! ### the theorems -/
+
 theorem batches_in_order (interval : Nat) (scripts : List (List Op)) (as : List Action) :
     handedVals (run (init interval scripts) as).hist =
-      batchVals (run (init interval scripts) as).hist ++ (run (init interval scripts) as).events := by
-  sorry
+      batchVals (run (init interval scripts) as).hist ++ (run (init interval scripts) as).events :=
+  (inv_run as (inv_init interval scripts)).base.ord
 
 theorem nothing_after_stop (interval : Nat) (scripts : List (List Op)) (as : List Action)
     (p q : List Obs) (tid t : Nat) (vs : List Nat) (t' : Nat)
-    (h : (run (init interval scripts) as).hist = p ++ .stopped tid t :: q) : Obs.batch vs t' ∉ q := by
-  sorry
+    (h : (run (init interval scripts) as).hist = p ++ .stopped tid t :: q) : Obs.batch vs t' ∉ q :=
+  (inv_run as (inv_init interval scripts)).base.nas p q tid t h vs t'
 
 theorem batch_after_silence (interval : Nat) (scripts : List (List Op)) (as : List Action)
     (p q : List Obs) (vs : List Nat) (t : Nat) (tid v t0 : Nat)
     (h : (run (init interval scripts) as).hist = p ++ .batch vs t :: q)
     (hv : Obs.handed tid v t0 ∈ p) (hin : v ∈ vs) (hd : ((handedVals p).filter (· == v)).length = 1) :
     t0 + interval ≤ t := by
-  sorry
+  -- `hin`, `hd` are not needed: the bound holds for everything handed in before the batch
+  have _ := hin; have _ := hd
+  exact (inv_run as (inv_init interval scripts)).base.sil p q vs t h tid v t0 hv
 
 theorem exits_on_stop (interval : Nat) (scripts : List (List Op)) (as : List Action) (tid t : Nat)
     (h : Obs.stopped tid t ∈ (run (init interval scripts) as).hist) :
-    (run (init interval scripts) as).deb = .done ∨ debEnabled (run (init interval scripts) as) = true := by
-  sorry
+    (run (init interval scripts) as).deb = .done ∨ debEnabled (run (init interval scripts) as) = true :=
+  let H := inv_run as (inv_init interval scripts)
+  H.ex (H.base.stopRun tid t h)
 
 end WD.ProofsDeb
